@@ -21,6 +21,10 @@ E2 (bounded exhaustive generators) + the loader-seeded state space of C02:
     row duplicated) through bridgepoint.consistency_check (ooaofooa schema,
     with and without -g), expected counts from a reference built by an
     independent parse of the ooaofooa schema text;
+ P  both tools as real processes (python -m ...) on models whose number of
+    violations lies around the multiples of 256, unrestricted and with -r / -k
+    selections that bring the selected number to 256: the exit status reported
+    by the operating system is non-zero exactly when violations are selected;
  E  explicit-state search over API histories (new / relate / unrelate / delete /
     identifier writes) started from empty and from loader-built over-populated
     models; the counts are compared in every reachable state.
@@ -55,6 +59,9 @@ ASSUMPTIONS = [
     'one after the other in one process, and for a subtype added to the live metamodel between two checks',
     'a stage that reports violations ends the run (stages: command lines, identifier sets, association shapes, histories)',
     'bridgepoint.consistency_check is decided on BridgePoint-format rows of PE_PE, S_DT, S_CDT (plus the built-in globals with -g)',
+    'the exit status of a tool is what the operating system reports for `python -m <tool> ...` (family P: real processes on the '
+    'scratch copy of the tree under test, for models with 0, 1, 255, 256, 257, 512 violations and -r / -k selections of 256 of '
+    'them); the in-process runs of families C and D apply the same reduction to eight bits to the code given to sys.exit',
 ]
 
 K1, K2, K3, DANGLING, DUP = 101, 102, 103, 199, 200
@@ -638,11 +645,19 @@ def exit_status(modname, argv):
             runpy.run_module(modname, run_name='__main__')
         return 0
     except SystemExit as e:
-        if e.code is None or e.code is False or e.code == 0:
-            return 0
-        return int(e.code) if isinstance(e.code, int) else 1
+        return os_status(e.code)
     finally:
         sys.argv = old
+
+
+def os_status(code):
+    '''The exit status a process ends with after sys.exit(code): None -> 0, an integer -> its low eight bits (what
+    exit(3) leaves of it), anything else is printed and the status is 1.'''
+    if code is None:
+        return 0
+    if isinstance(code, int):
+        return int(code) & 0xff
+    return 1
 
 
 def quiet_main(mod, argv):
@@ -945,12 +960,38 @@ def d_run(ctx, task):
     return None
 
 
+def bp_expected(schema, rows, rels, kinds, glob):
+    '''Accepted return values of bridgepoint.consistency_check.main (+ the parts they are made of).'''
+    from bridgepoint import schema as bps
+    all_rows = (parse_rows(schema, bps.globals) if glob else []) + rows
+    ref = FastRef(schema)
+    ref.load(all_rows)
+    vals = [dict(v) for _, v in all_rows]
+    read = reader(schema, ref, vals)
+    used = []
+    for k, _ in all_rows:
+        if k not in used:
+            used.append(k)
+    want_kinds = used if not kinds else [schema.attrs(k) and ref._kind(k) for k in kinds]
+    ids = ident_expected(schema, ref, read, only=set(want_kinds))
+    if rels:
+        assoc = sum(ref.association_violations(n) for n in rels)
+    else:
+        assoc = ref.association_violations()
+    exp = [assoc + i for i in sumset([ids[k]['accepted'] for k in want_kinds])]
+    return exp, assoc, ids, want_kinds
+
+
+def bp_text(schema, rows):
+    return '-- BP 7.1 content: c11 syschar: 3 persistence-version: 7.1.5\n\n' + inserts(schema, rows, positional=True)
+
+
 def bp_check(ctx, rows, rels, kinds, glob):
     import bridgepoint.consistency_check as bcc
     from bridgepoint import schema as bps
     schema = ooa_schema()
     case = dict(family='bp', schema='ooaofooa', rows=rows, rels=rels, kinds=kinds, globals=glob)
-    text = '-- BP 7.1 content: c11 syschar: 3 persistence-version: 7.1.5\n\n' + inserts(schema, rows, positional=True)
+    text = bp_text(schema, rows)
     path = write_tmp('model.xtuml', text)
     argv = [path]
     for n in rels:
@@ -967,22 +1008,7 @@ def bp_check(ctx, rows, rels, kinds, glob):
                       unit_test='# model.xtuml:\n# %s\nimport bridgepoint.consistency_check\n'
                                 'print(bridgepoint.consistency_check.main(%r))' % (text.replace('\n', '\n# '), shown))
     try:
-        all_rows = (parse_rows(schema, bps.globals) if glob else []) + rows
-        ref = FastRef(schema)
-        ref.load(all_rows)
-        vals = [dict(v) for _, v in all_rows]
-        read = reader(schema, ref, vals)
-        used = []
-        for k, _ in all_rows:
-            if k not in used:
-                used.append(k)
-        want_kinds = used if not kinds else [schema.attrs(k) and ref._kind(k) for k in kinds]
-        ids = ident_expected(schema, ref, read, only=set(want_kinds))
-        if rels:
-            assoc = sum(ref.association_violations(n) for n in rels)
-        else:
-            assoc = ref.association_violations()
-        exp = [assoc + i for i in sumset([ids[k]['accepted'] for k in want_kinds])]
+        exp, assoc, ids, want_kinds = bp_expected(schema, rows, rels, kinds, glob)
         with core.time_limit(LIMIT_S):
             ctx.count('bp_cli_runs')
             ctx.count('evaluations')
@@ -1009,6 +1035,169 @@ def bp_check(ctx, rows, rels, kinds, glob):
             os.unlink(path)
         except OSError:
             pass
+
+
+
+# ---------------------------------------------------------------------------
+# P -- the tools as real processes: the exit status the operating system reports
+# ---------------------------------------------------------------------------
+
+# numbers of violations around the points where a status taken from the count would wrap (the status has eight bits)
+P_COUNTS = {'quick': [0, 1, 255, 256, 257, 512], 'thorough': [0, 1, 2, 128, 255, 256, 257, 511, 512, 513, 768, 1024]}
+
+LAUNCHER = """
+import os, runpy, sys
+scratch, repo, mod = sys.argv[1], sys.argv[2], sys.argv[3]
+# the tree under test, not the editable install (its finder would also serve stale parser tables)
+sys.meta_path[:] = [f for f in sys.meta_path if '__editable__' not in getattr(f, '__module__', '')
+                    and '__editable__' not in getattr(f, '__name__', '') and '_EditableFinder' not in repr(f)]
+sys.path_hooks[:] = [h for h in sys.path_hooks if '__editable__' not in getattr(h, '__module__', '') and '__editable__' not in repr(h)]
+sys.path[:] = [p for p in sys.path if '__editable__' not in p and os.path.abspath(p or '.') != os.path.abspath(repo)
+               and os.path.abspath(p or '.') != os.path.dirname(os.path.abspath(__file__))]
+sys.path_importer_cache.clear()
+sys.path.insert(0, scratch)
+import xtuml, bridgepoint
+for m in (xtuml, bridgepoint):
+    if not os.path.realpath(m.__file__).startswith(os.path.realpath(scratch) + os.sep):
+        sys.stderr.write('C11-LAUNCHER-ERROR: %s loaded from %s\\n' % (m.__name__, m.__file__))
+        sys.stderr.flush()
+        os._exit(3)
+sys.argv = [mod] + sys.argv[4:]
+runpy.run_module(mod, run_name='__main__', alter_sys=True)      # = python -m <mod> <args>
+"""
+
+
+def process_status(modname, argv):
+    '''(exit status, stderr) of `python -m modname argv...` run as a process of its own on the tree under test.'''
+    import subprocess
+    import sys
+    from mc import bootstrap
+    launcher = os.path.join(bootstrap.tmpdir(), 'c11-launcher.py')
+    if not os.path.exists(launcher):
+        tmp = '%s.%d' % (launcher, os.getpid())
+        with open(tmp, 'w') as f:
+            f.write(LAUNCHER)
+        os.rename(tmp, launcher)
+    env = dict(os.environ)
+    env.pop('PYTHONPATH', None)
+    res = subprocess.run([sys.executable, launcher, bootstrap.scratch(), bootstrap.REPO, modname] + list(argv),
+                         stdin=subprocess.DEVNULL, stdout=subprocess.DEVNULL, stderr=subprocess.PIPE, env=env,
+                         cwd=bootstrap.tmpdir())
+    err = res.stderr.decode('utf-8', 'replace')
+    if 'C11-LAUNCHER-ERROR' in err:
+        raise core.HarnessError('the tool did not run on the tree under test: %s' % err.strip()[-300:])
+    return res.returncode, err
+
+
+def p_rows(spec):
+    '''A composite-schema model with a chosen number of violations: b rows of B referring to an A that is not there (one R1
+    violation each), e rows of E without a D (one R11 violation each), n rows of N with one and the same identifier (n - 1
+    repetitions, no association violation); cdt rows of S_CDT without their S_DT (BridgePoint tool, one R17 violation each).'''
+    rows = []
+    for i in range(spec.get('b', 0)):
+        rows.append(r('B', Id=1000 + i, A_Id=DANGLING))
+    for i in range(spec.get('e', 0)):
+        rows.append(r('E', Id=3000 + i))
+    for i in range(spec.get('n', 0)):
+        rows.append(r('N', Id=K1))
+    for i in range(spec.get('cdt', 0)):
+        rows.append(['S_CDT', dict(DT_ID=0x7000 + i, Core_Typ=2)])
+    return rows
+
+
+def p_tasks(tier):
+    t = [['P', 'xtuml', dict(b=c), [], []] for c in P_COUNTS[tier]]
+    t += [['P', 'xtuml', dict(b=256, e=3), [1], []],          # 259 violations, -r selects 256 of them
+          ['P', 'xtuml', dict(b=256, e=3), [11], []],         # ... and 3 of them
+          ['P', 'xtuml', dict(b=256), [12], []],              # 256 violations, none of them selected
+          ['P', 'xtuml', dict(b=2, n=257), [12], ['n']],      # -k selects 256 identifier violations
+          ['P', 'xtuml', dict(b=255, e=1), [], []],           # 256 over two associations
+          ['P', 'xtuml', dict(b=254, n=3), [], []]]           # 254 association + 2 identifier violations
+    # (an S_CDT without its S_DT: one R17 violation, a null identifying value, and from the second row on a repetition of it)
+    t += [['P', 'bridgepoint', dict(cdt=0), [], []],
+          ['P', 'bridgepoint', dict(cdt=256), [17], ['S_DT']],      # 256 association violations selected
+          ['P', 'bridgepoint', dict(cdt=171), [], []]]               # 171 + 171 + 170 = 512
+    if tier == 'thorough':
+        t += [['P', 'xtuml', dict(b=512, e=5), [1], []], ['P', 'xtuml', dict(n=513), [99], ['N']],
+              ['P', 'bridgepoint', dict(cdt=256), [], []], ['P', 'bridgepoint', dict(cdt=1), [17], ['S_CDT']],
+              ['P', 'bridgepoint', dict(cdt=512), [17, 8001], ['pe_pe']]]
+    return t
+
+
+def p_run(ctx, task):
+    p_check(ctx, task[1], task[2], task[3], task[4])
+    ctx.distinct('inputs', ('P', task[1], json.dumps(task[2], sort_keys=True)))
+    return None
+
+
+def p_check(ctx, tool, spec, rels, kinds):
+    '''One command line as a real process: its exit status is non-zero exactly when violations are selected.'''
+    case = dict(family='proc', tool=tool, spec=spec, rels=rels, kinds=kinds)
+    rows = p_rows(spec)
+    modname = '%s.consistency_check' % tool
+    argv = []
+    for n in rels:
+        argv += ['-r', str(n)]
+    for k in kinds:
+        argv += ['-k', k]
+
+    def bad(kind, msg, e=None, g=None):
+        ctx.violation('c11:%s' % kind, case, 'model %s, python -m %s %s <model file>: %s' %
+                      (json.dumps(spec, sort_keys=True), modname, ' '.join(argv), msg), e, g,
+                      unit_test='# model file: %s\n# (rows as produced by mc.props.c11.p_rows(%r))\n'
+                                'import subprocess, sys\nprint(subprocess.call([sys.executable, "-m", %r] + %r + [MODEL_FILE]))' %
+                                (json.dumps(spec, sort_keys=True), spec, modname, argv))
+    path = None
+    try:
+        with core.time_limit(LIMIT_S * 6):
+            if tool == 'xtuml':
+                import xtuml.consistency_check as mod
+                schema = composite()
+                res = evaluate(ctx, schema, rows, 'composite', want_parts=True, light=True)
+                if res is None:
+                    return
+                parts, text = res
+                exp = cli_expected(parts, rels, kinds, schema)
+                path = write_tmp('proc-model.sql', text)
+            else:
+                import bridgepoint.consistency_check as mod
+                schema = ooa_schema()
+                exp = bp_expected(schema, rows, rels, kinds, False)[0]
+                path = write_tmp('proc-model.xtuml', bp_text(schema, rows))
+            ctx.count('evaluations')
+            got = quiet_main(mod, argv + [path])
+            if got not in exp:
+                bad('proc:return', 'main returned %r, expected %s' % (got, exp), exp, got)
+                return
+            ctx.count('proc_runs')
+            ctx.count('evaluations')
+            st, err = process_status(modname, argv + [path])
+            want = int(any(e > 0 for e in exp))
+            if 'Traceback' in err:
+                bad('proc:exception', 'the process ended with status %r and a traceback: %s' % (st, err.strip()[-400:]), want, st)
+                return
+            if (st != 0) != bool(want):
+                bad('proc:exit', 'the process ended with exit status %r although %s violations are selected (main returns %r)' %
+                    (st, exp, got), 'non-zero' if want else 0, st)
+                return
+            ctx.distinct('proc_outcomes', (tool, exp[0], st))
+            ctx.count('proc_runs_with_violations' if want else 'proc_runs_clean')
+            if exp[0] and exp[0] % 256 == 0:
+                ctx.count('proc_runs_with_a_multiple_of_256_violations')
+            if (rels or kinds) and exp[0] and exp[0] % 256 == 0:
+                ctx.count('proc_runs_restricted_to_a_multiple_of_256_violations')
+    except core.Timeout:
+        bad('hang', 'no answer within %.0f s' % (LIMIT_S * 6))
+    except core.HarnessError:
+        raise
+    except Exception as e:
+        bad('proc:exception', 'raised %s: %s' % (type(e).__name__, e), None, type(e).__name__)
+    finally:
+        if path:
+            try:
+                os.unlink(path)
+            except OSError:
+                pass
 
 
 # ---------------------------------------------------------------------------
@@ -1299,13 +1488,13 @@ def f_run(ctx, task):
 # ---------------------------------------------------------------------------
 
 def dispatch(ctx, task):
-    return {'A': a_run, 'B': b_run, 'C': c_run, 'D': d_run}[task[0]](ctx, task)
+    return {'A': a_run, 'B': b_run, 'C': c_run, 'D': d_run, 'P': p_run}[task[0]](ctx, task)
 
 
 def run(ctx):
     ooa_schema()
     # stages, cheapest first; a stage that reports violations ends the run (the remaining stages would only repeat them)
-    stages = [('command lines (C, D)', c_tasks(ctx.tier) + d_tasks(ctx.tier), 1),
+    stages = [('command lines (C, D, P)', c_tasks(ctx.tier) + d_tasks(ctx.tier) + p_tasks(ctx.tier), 1),
               ('identifier sets (B)', b_tasks(ctx.tier), 4),
               ('association shapes (A)', a_tasks(ctx.tier), 2)]
     tasks = []
@@ -1316,8 +1505,8 @@ def run(ctx):
         ts = [ts[i] for i in order]
         tasks.extend(ts)
         ctx.pmap(dispatch, ts, chunk=chunk)
-        print('  %-24s tasks=%d models=%d cli=%d bpcli=%d outcomes=%d/%d/%d t=%.0fs' %
-              (label, len(ts), ctx.n('models'), ctx.n('cli_runs'), ctx.n('bp_cli_runs'), ctx.nd('outcomes'),
+        print('  %-24s tasks=%d models=%d cli=%d bpcli=%d processes=%d outcomes=%d/%d/%d t=%.0fs' %
+              (label, len(ts), ctx.n('models'), ctx.n('cli_runs'), ctx.n('bp_cli_runs'), ctx.n('proc_runs'), ctx.nd('outcomes'),
                ctx.nd('cli_outcomes'), ctx.nd('bp_outcomes'), ctx.elapsed()), flush=True)
         if ctx.violations:
             print('  violations reported; remaining stages skipped', flush=True)
@@ -1349,7 +1538,9 @@ def run(ctx):
                        ('models_where_counting_rules_differ', 100), ('subtype_violations_seen', 100),
                        ('history_states_from_loader_seed', 50),
                        ('cli_runs_with_violations', 500), ('cli_runs_clean', 20), ('cli_runs_restricted_to_clean_part', 20),
-                       ('bp_runs_with_violations', 100), ('bp_runs_clean', 10)):
+                       ('bp_runs_with_violations', 100), ('bp_runs_clean', 10),
+                       ('proc_runs', 15), ('proc_runs_clean', 3), ('proc_runs_with_violations', 10),
+                       ('proc_runs_with_a_multiple_of_256_violations', 8), ('proc_runs_restricted_to_a_multiple_of_256_violations', 3)):
         ctx.require(ctx.n(key) >= least, 'vacuity: %s = %d (< %d)' % (key, ctx.n(key), least))
     ctx.require(ctx.nd('outcomes') >= 100, 'too few distinct outcomes (%d)' % ctx.nd('outcomes'))
     ctx.require(ctx.nd('cli_outcomes') >= 6 and ctx.nd('bp_outcomes') >= 5, 'too few distinct command-line outcomes')
@@ -1367,6 +1558,8 @@ def replay(ctx, case):
         cli_check(ctx, schema_from_json(case['schema']), case['rows'], case['rels'], case['kinds'], case['split'])
     elif fam == 'bp':
         bp_check(ctx, case['rows'], case['rels'], case['kinds'], case['globals'])
+    elif fam == 'proc':
+        p_check(ctx, case['tool'], case['spec'], case['rels'], case['kinds'])
     else:
         evaluate(ctx, schema_from_json(case['schema']), case['rows'], fam, positional=case.get('positional', False))
 
@@ -1400,6 +1593,10 @@ def coverage(ctx):
         cli_runs_clean=ctx.n('cli_runs_clean'), cli_runs_restricted_to_clean_part=ctx.n('cli_runs_restricted_to_clean_part'),
         bp_cli_runs=ctx.n('bp_cli_runs'), bp_runs_with_violations=ctx.n('bp_runs_with_violations'),
         bp_runs_clean=ctx.n('bp_runs_clean'),
+        tool_processes=dict(runs=ctx.n('proc_runs'), with_violations=ctx.n('proc_runs_with_violations'), clean=ctx.n('proc_runs_clean'),
+                            with_a_multiple_of_256_violations=ctx.n('proc_runs_with_a_multiple_of_256_violations'),
+                            of_which_through_r_or_k=ctx.n('proc_runs_restricted_to_a_multiple_of_256_violations'),
+                            violation_counts=P_COUNTS[ctx.tier], distinct_outcomes=ctx.nd('proc_outcomes')),
         distinct_cli_outcomes=ctx.nd('cli_outcomes') + ctx.nd('bp_outcomes'),
         per_shape_history=dict((k, v) for k, v in ctx.notes.items() if isinstance(v, dict)),
         bounds=dict(association_shapes=dict((k, dict(max_instances=v[0], referred_keys=v[1], own_id_duplicates=v[2]))
